@@ -230,7 +230,15 @@ fn rotate(
         _ => false, // Only case that can actually happen is (None, None)
     };
 
-    for i in (base..base + count - 1).rev() {
+    // `count` is at least 1 here; reject index windows that do not fit in a u32
+    let last = base.checked_add(count - 1).ok_or_else(|| {
+        io::Error::new(
+            io::ErrorKind::InvalidInput,
+            "fixed window roller: base + count overflows u32",
+        )
+    })?;
+
+    for i in (base..last).rev() {
         let src = expand_env_vars(pattern.replace("{}", &i.to_string()));
         let dst = expand_env_vars(pattern.replace("{}", &(i + 1).to_string()));
 
